@@ -207,7 +207,7 @@ func (fc *FnCtx) builtinCopy(s *State, x *ssa.Call, dst, src Val) Val {
 		mkImp(in, mkEq(mkSelect(newDst, j), mkSelect(oldSrc, mkAdd(src.Off, mkSub(j, dst.Off))))),
 		mkImp(mkNot(in), mkEq(mkSelect(newDst, j), mkSelect(oldDst, j))))
 	s.assume(mkForall("?j", body))
-	fc.registerFrame(newDst, oldDst, dst.Off, mkAdd(dst.Off, nc))
+	fc.registerFrame(newDst, oldDst, dst.Off, mkAdd(dst.Off, nc), dst.Arr)
 	// value-level consequence (lemma V_copy: equal words give equal values), used by callers
 	s.assume(mkEq(mkV(newDst, dst.Off, mkAdd(dst.Off, nc)), mkV(oldSrc, src.Off, mkAdd(src.Off, nc))))
 	fc.usedIntrinsics["builtin copy (memmove; with the value consequence V(dst[:n]) = V(src[:n]))"] = true
@@ -534,7 +534,7 @@ func (fc *FnCtx) applyContract(s *State, x *ssa.Call, ct *Contract, callee *ssa.
 			var next []*State
 			for _, st := range states {
 				henv := &Env{fc: fc, names: map[string]Val{}, cellsAt: st, heap: st.heap, oldNames: fc.entry, oldHeap: fc.oldHeap, pos: x.Pos(),
-					nalloc0: fc.nalloc0, nobj0: fc.nobj0, bound: map[string]Val{"result": result}}
+					nalloc0: fc.nalloc0, nobj0: fc.nobj0, bound: map[string]Val{"result": result}, preHeap: old}
 				if result.K == VTuple {
 					for i, el := range result.Elems {
 						henv.bound[fmt.Sprintf("result%d", i)] = el
@@ -692,7 +692,7 @@ func (fc *FnCtx) havocFrame(s *State, fr *Frame, old map[string]*Term) {
 		j := mkConst("?j", SInt)
 		body := mkImp(mkNot(mkAnd(mkLe(r.Lo, j), mkLt(j, r.Hi))), mkEq(mkSelect(nm, j), mkSelect(before, j)))
 		s.assume(mkForall("?j", body))
-		fc.registerFrame(nm, before, r.Lo, r.Hi)
+		fc.registerFrame(nm, before, r.Lo, r.Hi, r.Arr)
 	}
 }
 
